@@ -285,7 +285,8 @@ func (m *monC01) afterProvider(c *Chain, req *abci.RequestFinalizeBlock, res *ab
 				want = at + 1
 				w.Case("C12", "resolve:id>0")
 			} else {
-				// the id of the update that is still being collected (not produced by an epoch yet): every block maps it to the next height
+				// the id of the update that was still being collected while this block's transactions ran (produced by this block's
+			// EndBlock at the earliest): the previous block's EndBlock mapped it to this height
 				want = req.Height
 				w.Case("C12", "resolve:current-id")
 			}
